@@ -13,7 +13,7 @@ from typing import TYPE_CHECKING, Any, Literal, overload
 import numpy as np
 
 from ..tools.docstrings import fill_in_docstring
-from ..tools.misc import number_array
+from ..tools.misc import get_common_dtype, number_array
 from ..tools.plotting import PlotReference, plot_on_axes, plot_on_figure
 from .base import FieldBase
 from .datafield_base import DataFieldBase
@@ -338,7 +338,7 @@ class FieldCollection(FieldBase):
             if not issubclass(field_class, DataFieldBase):
                 msg = "Individual fields must be of type DataFieldBase."
                 raise TypeError(msg)
-            field = field_class(grid)
+            field = field_class(grid, dtype=get_common_dtype(data))
             end = start + grid.dim**field.rank
             if with_ghost_cells:
                 field._data_flat = data[start:end]
